@@ -350,6 +350,8 @@ func propC13(c *Ctx) {
 	defer func() {
 		rdu := c.Rule("disable-uncache", "DisableBuiltin removes the symbol Resolve cached for the name while the builtin was enabled: a builtin disabled after an earlier fragment used it is unreachable for later fragments", 1)
 		ruleDisableUncache(c, rdu)
+		rrr := c.Rule("rewrite-by-result", "the optimizer replaces a node only by what a folding / evaluating call returned: no call of a builtin is folded on a path that bypasses the evaluator, which is where disabled and shadowed builtins are honoured", 10)
+		ruleRewriteByResult(c, rrr)
 	}()
 	lib := c.L.RepoFuncs(func(pp string) bool { return pp == modPath })
 	rRoles := c.Rule("roles", "the functions that implement the disabled set behave as their role demands: root() walks to the table with nil parent, the getter and the disabled test read the root table's set, the evaluator's copy function reads the source's root set and writes the destination's root set", 4)
